@@ -5,12 +5,14 @@
 # property's quick check against a patched scratch copy of the current /repo tree.  Prints one RESULT line.
 ID="$1"; shift
 HERE="$(cd "$(dirname "$0")/.." && pwd)"
-SRC="/tmp/seed-$ID"
-W="/tmp/sv-$ID"
+SRC="/tmp/${SEED_PREFIX:-seed}-$ID"
+W="/tmp/sv-$ID-$$"
 [ -f "$SRC/patch.diff" ] && [ -f "$SRC/demo.py" ] || { echo "RESULT $ID missing deliverables"; exit 3; }
 mkdir -p "$HERE/seeded/$ID"
-cp "$SRC/patch.diff" "$SRC/demo.py" "$HERE/seeded/$ID/"
-[ -f "$SRC/NOTES.md" ] && cp "$SRC/NOTES.md" "$HERE/seeded/$ID/NOTES.md"
+SUF="${SEED_SUFFIX:-}"
+cp "$SRC/patch.diff" "$HERE/seeded/$ID/patch$SUF.diff"
+cp "$SRC/demo.py" "$HERE/seeded/$ID/demo$SUF.py"
+[ -f "$SRC/NOTES.md" ] && cp "$SRC/NOTES.md" "$HERE/seeded/$ID/NOTES$SUF.md"
 git -C /repo worktree remove --force "$W" >/dev/null 2>&1
 git -C /repo worktree add -q "$W" HEAD || exit 3
 cp "$SRC/demo.py" "$W/demo.py"
@@ -24,4 +26,4 @@ fi
 git -C /repo worktree remove --force "$W"
 out="$(VF_NO_EVIDENCE=1 "$HERE/tools/with_patch.sh" "$SRC/patch.diff" "$HERE/check" "$ID" --tier quick "$@" 2>&1)"; rc=$?
 sigs="$(printf '%s\n' "$out" | grep -o 'signature=[^ ]*' | sort -u | head -6 | tr '\n' ' ')"
-echo "RESULT $ID demo_without=$d0 demo_with=$d1 suite=[$suite] check_exit=$rc $sigs"
+echo "RESULT $ID$SUF demo_without=$d0 demo_with=$d1 suite=[$suite] check_exit=$rc $sigs"
